@@ -21,7 +21,7 @@ import sys
 VERIF = os.path.dirname(os.path.dirname(os.path.abspath(__file__)))
 GOENV = ("export PATH=/root/go/pkg/mod/golang.org/toolchain@v0.0.1-go1.25.0.linux-amd64/bin:$PATH "
          "GOTOOLCHAIN=local GOFLAGS=-mod=mod GOPROXY=off; ")
-FLAKY = "TestClientRace|TestProgressDisconnect"   # fail under machine load on the unchanged tree as well
+FLAKY = "TestClientRace|TestProgressDisconnect|TestRecvTimeout"   # fail under machine load on the unchanged tree as well (timing with 1-10 ms margins)
 
 
 def sh(cmd, **kw):
@@ -83,6 +83,8 @@ def do_import(dirs):
             good = all(conf.get(k) for k in ("demo_passes_without_change", "patch_applies_on_head", "builds", "suite_passes", "demo_fails_with_change"))
             print(name, "CONFIRMED" if good else "NOT CONFIRMED", {k: v for k, v in conf.items() if isinstance(v, bool)}, flush=True)
             if not good:
+                if not conf.get("suite_passes"):
+                    print("   suite:", conf.get("suite_output", "")[-800:].replace("\n", " | "))
                 continue
             dst = os.path.join(VERIF, "seeded", name)
             os.makedirs(dst, exist_ok=True)
